@@ -25,6 +25,18 @@ def strategy(tier, flags):
         "bounds": st.lists(st.integers(0, 5), min_size=1, max_size=3, unique=True)})
 
 
+EXHAUSTIVE_SCOPE = {
+    "thorough": "all grammars over variables {S,A}, terminals {a,b}, with 1-3 distinct productions with bodies of "
+                "length <=2 (12383 grammars, the scope of C08)",
+}
+
+
+def exhaustive(tier, shard, nshards):
+    from props import c08
+    for c in c08.exhaustive(tier, shard, nshards):
+        yield {"g": c["g"], "bounds": [2, 3]}
+
+
 def run_case(case):
     from pyformlang.cfg import Variable, Terminal
     failures = []
@@ -95,7 +107,6 @@ def run_case(case):
     # the same questions again, after the normal form and the other caches have been filled
     with guard(failures, "second_pass"):
         for name, got, exp in (("is_empty", g.is_empty(), R.is_empty()), ("is_finite", g.is_finite(), finite),
-                               ("bool", bool(g), not R.is_empty()),
                                ("get_generating_symbols", {key(s) for s in g.get_generating_symbols()},
                                 {('V', v) for v in R.generating()} | {('T', t) for t in R.terms}),
                                ("get_nullable_symbols", {key(s) for s in g.get_nullable_symbols()},
